@@ -45,15 +45,15 @@ PROPS = {
     "C01": dict(lanes=L(["rel", "dbg"])),
     "C02": dict(lanes=L(["rel", "dbg"])),
     "C03": dict(lanes=L(["rel", "dbg"])),
-    "C04": dict(lanes=L(["rel", "dbg"])),
+    "C04": dict(lanes=L(["rel", "dbg"], ["rel", "dbg", "asan", "miri"])),
     "C05": dict(lanes=L(["rel", "dbg"])),
     "C06": dict(lanes=L(["rel", "dbg"])),
     "C07": dict(lanes=L(["rel", "dbg"])),
     "C08": dict(lanes=L(["rel", "dbg"])),
     "C09": dict(lanes=L(["rel", "dbg"])),
     "C10": dict(lanes=L(["rel", "dbg"])),
-    "C11": dict(lanes=L(["rel", "dbg"])),
-    "C12": dict(lanes=L(["rel", "dbg"], ["rel", "dbg"])),
+    "C11": dict(lanes=L(["rel", "dbg"], ["rel", "dbg", "asan", "miri"])),
+    "C12": dict(lanes=L(["rel", "dbg"], ["rel", "dbg", "asan", "miri"])),
     "C14": dict(lanes=L(["rel", "dbg"])),
     "C28": dict(lanes=L(["rel", "dbg"])),
     "C29": dict(lanes=L(["rel", "dbg"])),
